@@ -57,12 +57,13 @@ type targetPanic struct {
 
 // Config is what a run needs to know beyond the program.
 type Config struct {
-	StepBudget   int
-	ConcCap      int             // max values when concretising a symbolic integer
-	OpenFindings map[string]bool // known-finding ids that are open
-	Trace        bool
-	Thorough     bool
-	CrossSolver  string // if set, every assertion query is re-asked to this solver (one-shot) and must agree
+	StepBudget      int
+	ConcCap         int             // max values when concretising a symbolic integer
+	OpenFindings    map[string]bool // known-finding ids that are open
+	ForeignFindings map[string]bool // open findings that belong to another property than the one checked
+	Trace           bool
+	Thorough        bool
+	CrossSolver     string // if set, every assertion query is re-asked to this solver (one-shot) and must agree
 }
 
 // Machine is one worker: term context, solver, globals and per-path state.
